@@ -15,7 +15,9 @@
     Quantifier: every state reachable by a history (C12_reachable_invariant: [InvS]), every operation
     [o] (open, close, write, snapshot, remove, mark-removed, revert, resize, set-checkpoint,
     set-rebuilding, set-mode) with every argument for which the code as it is behaves ([ok_op]: all of
-    them once the argument repairs are in, see C12), every k. *)
+    them once the argument repairs are in, see C12), every k.  ReplaceDisk is in the model but inside
+    [ok_op] only where the code refuses it (a ReplaceDisk that is carried out unlinks the target's
+    image before the source is linked in its place: it is not crash-atomic and is not claimed to be). *)
 From Coq Require Import List ZArith NArith Bool Arith.
 From Jiva Require Import Meta.Model Meta.Corr Meta.Proofs Meta.Fault.
 Import ListNotations.
